@@ -21,6 +21,7 @@ import ScadVerif.Props.C05
 import ScadVerif.Props.C07
 import ScadVerif.Lemmas.MeshLemmas
 import ScadVerif.Lemmas.ThreadClosed
+import ScadVerif.Lemmas.FanClosed
 namespace ScadVerif.C04
 open ScadVerif ScadVerif.Dim3 ScadVerif.Dim3.Polyhedron ScadVerif.Spec ScadVerif.MeshLemmas ScadVerif.TriLemmas
 
@@ -919,6 +920,109 @@ theorem cylinder_volume (r height : ℝ) (hr : 0 < r) (hh : 0 < height) (seg : N
 /-- non-vacuity of the certificate: the two triangles of a square tile its ring -/
 example : CapTiles 4 0 true [[0, 1, 2], [0, 2, 3]] :=
   ⟨[(2, 0)], by decide⟩
+
+/-! ### convex outlines: the complete statement, at the level of the oracle's Boolean -/
+/-- **C04 for every strictly convex outline (either direction, any size ≥ 4): `linear_extrude` yields a
+mesh that satisfies `closedOriented`** — valid indices, faces of three or four pairwise distinct
+vertices, every directed edge in exactly one face and its reverse in exactly one other face.  No
+hypothesis about the triangulator: on convex outlines the loop emits the fan (C03 `convex_fan`), a fan
+has no directed edge twice (Lemmas/FanClosed), a cap never repeats a forward ring edge of the strip
+(`cap_avoids_ring`), and the caps glue to the strip (`linearExtrude_closed_of_complete`). -/
+theorem linearExtrude_convex_closedOriented (ccw : Bool) (c : List (Pt2 ℝ)) (height : ℝ) (p : Polyhedron ℝ)
+    (hconv : TriLemmas.ConvexPos ccw c) (h : linearExtrude c height = some p) :
+    closedOriented p.points.length p.faces = true := by
+  obtain ⟨b, t, hb, ht, hf, hp⟩ := linearExtrude_faces c height p h
+  have hn : 3 < c.length := by
+    unfold Tri.triangulate2d at ht; split at ht
+    · assumption
+    · simp at ht
+  have eb : b = Tri.triangulate (Tri.indexed c).reverse := by
+    unfold Tri.triangulate2dRev at hb; rw [if_pos hn] at hb; injection hb with hb; exact hb.symm
+  have et : t = Tri.triangulate (Tri.indexed c) := by
+    unfold Tri.triangulate2d at ht; rw [if_pos hn] at ht; injection ht with ht; exact ht.symm
+  have hl : (Tri.indexed c).length = c.length := by simp [Tri.indexed]
+  have hlr : (Tri.indexed c).reverse.length = c.length := by simp [Tri.indexed]
+  -- the two fans
+  have fanT := TriLemmas.triangulate_convex_fan ccw (Tri.indexed c) (by omega)
+    (by rw [C03.pts_indexed]; exact hconv)
+  have fanB := TriLemmas.triangulate_convex_fan (!ccw) (Tri.indexed c).reverse (by omega)
+    (by rw [C03.pts_indexed_reverse]; exact C03.convex_reverse ccw c hconv)
+  have cT := TriLemmas.triangulate_convex_complete ccw (Tri.indexed c) (by omega)
+    (by rw [C03.pts_indexed]; exact hconv)
+  have cB := TriLemmas.triangulate_convex_complete (!ccw) (Tri.indexed c).reverse (by omega)
+    (by rw [C03.pts_indexed_reverse]; exact C03.convex_reverse ccw c hconv)
+  rw [hl] at cT; rw [hlr] at cB
+  have labT : (TriLemmas.lab (Tri.indexed c)).Nodup := by rw [lab_indexed]; exact List.nodup_range
+  have labB : (TriLemmas.lab (Tri.indexed c).reverse).Nodup := by
+    have : TriLemmas.lab (Tri.indexed c).reverse = (TriLemmas.lab (Tri.indexed c)).reverse := by
+      simp [TriLemmas.lab]
+    rw [this, List.nodup_reverse]; exact labT
+  have neT : Tri.indexed c ≠ [] := by intro h0; rw [h0] at hl; simp at hl; omega
+  have neB : (Tri.indexed c).reverse ≠ [] := by intro h0; rw [h0] at hlr; simp at hlr; omega
+  obtain ⟨ndT, memT⟩ := FanClosed.fanAux_nodup (Tri.indexed c) neT labT
+  obtain ⟨ndB, memB⟩ := FanClosed.fanAux_nodup (Tri.indexed c).reverse neB labB
+  have labmemT : ∀ x ∈ TriLemmas.lab (Tri.indexed c), x < c.length := by
+    intro x hx; rw [lab_indexed] at hx; exact List.mem_range.mp hx
+  have labmemB : ∀ x ∈ TriLemmas.lab (Tri.indexed c).reverse, x < c.length := by
+    intro x hx
+    have : TriLemmas.lab (Tri.indexed c).reverse = (TriLemmas.lab (Tri.indexed c)).reverse := by
+      simp [TriLemmas.lab]
+    rw [this, List.mem_reverse] at hx; exact labmemT x hx
+  subst eb; subst et
+  rw [hf, hp]
+  have hX : allEdges (triFaces 0 (Tri.triangulate (Tri.indexed c).reverse)) =
+      (TriLemmas.runEdges (TriLemmas.fanAux (TriLemmas.vAt (Tri.indexed c).reverse ((Tri.indexed c).reverse.length - 1))
+        (Tri.indexed c).reverse)).map (shift 0) := by rw [fanB, triFaces_labels]
+  have hY : allEdges (triFaces c.length (Tri.triangulate (Tri.indexed c))) =
+      (TriLemmas.runEdges (TriLemmas.fanAux (TriLemmas.vAt (Tri.indexed c) ((Tri.indexed c).length - 1))
+        (Tri.indexed c))).map (shift c.length) := by rw [fanT, triFaces_labels]
+  apply closedOriented_of
+  · -- faces
+    intro f hfm
+    have hv := capped_valid c.length _ _
+      ((C03.triangulate2d_spec c).2.2 _ hb).1 ((C03.triangulate2d_spec c).2.1 _ ht).1 f hfm
+    refine ⟨by rcases hv.2 with h3 | h4 <;> omega, hv.1, ?_⟩
+    simp only [List.mem_append] at hfm
+    rcases hfm with (hfm | hfm) | hfm
+    · rw [fanB] at hfm; exact FanClosed.fanAux_faces_nodup _ neB labB 0 f hfm
+    · rw [fanT] at hfm; exact FanClosed.fanAux_faces_nodup _ neT labT c.length f hfm
+    · exact FanClosed.strip_faces_nodup c.length 0 1 (by omega) (by omega) f hfm
+  · -- no directed edge twice
+    rw [allEdges_append, allEdges_append]
+    apply FanClosed.capped_strip_nodup c.length (by omega)
+    · rw [hX]; exact FanClosed.nodup_shift 0 _ ndB
+    · rw [hY]; exact FanClosed.nodup_shift c.length _ ndT
+    · intro e he
+      rw [hX, List.mem_map] at he
+      obtain ⟨a, ha, rfl⟩ := he
+      have := memB a ha
+      simp only [shift]
+      exact ⟨by have := labmemB _ this.1; omega, by have := labmemB _ this.2; omega⟩
+    · intro e he
+      rw [hY, List.mem_map] at he
+      obtain ⟨a, ha, rfl⟩ := he
+      simp only [shift]
+      exact ⟨by omega, by omega⟩
+    · exact cap_backward c (by omega) cB
+    · have := cap_forward c c.length (by omega) cT
+      rwa [ringF_shift] at this
+  · -- every directed edge matched by its reverse
+    have := linearExtrude_closed_of_complete c height p h (by
+      intro b' t' hb' ht'
+      rw [hb] at hb'; rw [ht] at ht'
+      injection hb' with hb'; injection ht' with ht'
+      subst hb'; subst ht'
+      exact ⟨cB, cT⟩)
+    rwa [hf] at this
+
+/-- **every cylinder satisfies `closedOriented`** (any radius > 0, height, segment count for which the
+builder returns a mesh): hence every viewer edge mesh and every thread core rod. -/
+theorem cylinder_closedOriented (r height : ℝ) (hr : 0 < r) (seg : Nat) (p : Polyhedron ℝ)
+    (h : cylinder r height seg = some p) : closedOriented p.points.length p.faces = true := by
+  unfold cylinder at h
+  simp only [Option.bind_eq_bind] at h
+  obtain ⟨c, hc, h⟩ := C05.bind_some h
+  exact linearExtrude_convex_closedOriented false c height p (C07.circle_convex r hr seg c hc) h
 
 /-- **the thread and rod meshes inside threaded parts are closed, consistently oriented surfaces**:
 every mesh `threaded_cylinder` builds — any diameters, pitch, length, segment count, lead-in/out
